@@ -84,7 +84,7 @@ class Fragment:
             nonlocal separated
             if node.is_text:
                 text_node = cast("TextNode", node)
-                text.append(text_node.text[max(from_, pos) - pos : to - pos])
+                text.append(text_node.text_between(max(from_, pos) - pos, to - pos))
                 separated = not block_separator
             elif node.is_leaf:
                 if leaf_text:
